@@ -251,3 +251,20 @@ package prefilter
 //@   loop 2: invariant candidateMask == cmUpTo(t, haystack, i, pos)
 //@   loop 2: invariant forall j :: 0 <= j && j < i ==> cmUpTo(t, haystack, j, fpLen) == 0
 //@   loop 2: decreases fpLen - pos
+
+// fat variant (16 buckets in two byte lanes): same statement, per lane
+//@ spec func fnm(t *FatTeddy, h []byte, i int, p int, lane int) byte = t.masks.loMasks[p][lane + int(h[i+p] & 15)] & t.masks.hiMasks[p][lane + int((h[i+p] >> 4) & 15)]
+//@ spec func fcm(t *FatTeddy, h []byte, i int, k int, lane int) byte = ite(k >= 1, fnm(t, h, i, 0, lane), 255) & ite(k >= 2, fnm(t, h, i, 1, lane), 255) & ite(k >= 3, fnm(t, h, i, 2, lane), 255) & ite(k >= 4, fnm(t, h, i, 3, lane), 255)
+//@ func (*FatTeddy).findScalarCandidate
+//@   props C16 C12 C07
+//@   arith mixed
+//@   requires t != nil && t.masks != nil && t.masks.fingerprintLen <= 4 && len(haystack) <= 140737488355328
+//@   ensures pos == -1 ==> (forall j :: 0 <= j && j + int(t.masks.fingerprintLen) <= len(haystack) ==> fcm(t, haystack, j, int(t.masks.fingerprintLen), 0) == 0 && fcm(t, haystack, j, int(t.masks.fingerprintLen), 16) == 0)
+//@   ensures pos != -1 ==> 0 <= pos && pos + int(t.masks.fingerprintLen) <= len(haystack) && (fcm(t, haystack, pos, int(t.masks.fingerprintLen), 0) != 0 || fcm(t, haystack, pos, int(t.masks.fingerprintLen), 16) != 0) && (forall j :: 0 <= j && j < pos ==> fcm(t, haystack, j, int(t.masks.fingerprintLen), 0) == 0 && fcm(t, haystack, j, int(t.masks.fingerprintLen), 16) == 0)
+//@   loop 1: invariant 0 <= i && i <= len(haystack) + 1 && fpLen == int(t.masks.fingerprintLen) && 0 <= fpLen && fpLen <= 4
+//@   loop 1: invariant forall j :: 0 <= j && j < i ==> fcm(t, haystack, j, fpLen, 0) == 0 && fcm(t, haystack, j, fpLen, 16) == 0
+//@   loop 1: decreases len(haystack) + 1 - i
+//@   loop 2: invariant 0 <= pos && pos <= fpLen && 0 <= i && i + fpLen <= len(haystack) && fpLen == int(t.masks.fingerprintLen) && fpLen <= 4
+//@   loop 2: invariant candidateMaskLo == fcm(t, haystack, i, pos, 0) && candidateMaskHi == fcm(t, haystack, i, pos, 16)
+//@   loop 2: invariant forall j :: 0 <= j && j < i ==> fcm(t, haystack, j, fpLen, 0) == 0 && fcm(t, haystack, j, fpLen, 16) == 0
+//@   loop 2: decreases fpLen - pos
